@@ -57,7 +57,7 @@ func newC04Upstream(sig chan struct{}) *c04Upstream {
 
 func TestVerifC04Listeners(t *testing.T) {
 	L := ev.Begin("C04", "c04-listeners", "exploration",
-		"listener kind {tcp, tcp+sni, https+tcp+sni} x {2, 3} equally weighted tcp targets x strategy rr, on real listeners started through proxy.ListenAndServe* with exactly the lookup functions main.go wires in (lookupHostFn, lookupHostMatcher), real TCP upstreams that count accepted connections; 2 and 4 full cycles of connections, one after the other (the next connection starts when an upstream has seen the previous one). oracle: after k full cycles every target has received exactly k connections. non-trivial = every case")
+		"listener kind {tcp, tcp+sni, https+tcp+sni} x {2, 3} equally weighted tcp targets x strategy rr, on real listeners started through proxy.ListenAndServe* with exactly the lookup functions main.go wires in (lookupHostFn, lookupHostMatcher), real TCP upstreams that count accepted connections; 2 and 4 full cycles of connections, one after the other (the next connection starts when an upstream has seen the previous one). oracle: after k full cycles every target has received exactly k connections; plus a gRPC listener with two backends on one address: 20 calls, 10 each. non-trivial = every case")
 	free := func() string {
 		l, err := net.Listen("tcp", "127.0.0.1:0")
 		if err != nil {
@@ -172,6 +172,36 @@ func TestVerifC04Listeners(t *testing.T) {
 				}
 				proxy.Shutdown(0)
 			}
+		}
+	}
+	// a gRPC listener (fabio's director, connection pool and interceptor as main.go assembles them) with two equally
+	// weighted backends on one address and two ports: 20 calls, one after the other, 10 each
+	{
+		r := newC16Rig()
+		r.setTable(fmt.Sprintf("route add g /grpc.testing.TestService grpc://%s opts \"proto=grpc\"\nroute add g /grpc.testing.TestService grpc://%s opts \"proto=grpc\"\n", r.a.addr, r.b.addr))
+		for _, b := range []*c16Backend{r.a, r.b} {
+			b.mu.Lock()
+			b.script, b.calls = c16Script{replies: [][]byte{{1}}}, nil
+			b.mu.Unlock()
+		}
+		failed := 0
+		for i := 0; i < 20; i++ {
+			if res := r.call(c16Call{kind: "unary", reqs: [][]byte{{1}}}); res.code != 0 {
+				failed++
+			}
+		}
+		r.a.mu.Lock()
+		na := len(r.a.calls)
+		r.a.mu.Unlock()
+		r.b.mu.Lock()
+		nb := len(r.b.calls)
+		r.b.mu.Unlock()
+		L.Case()
+		L.NontrivialKey("grpc-two-ports-one-address")
+		d := map[string]interface{}{"listener": "grpc", "targets": []string{r.a.addr, r.b.addr}, "calls": 20, "failed": failed, "served_by_first": na, "served_by_second": nb}
+		L.Sample(d)
+		if failed != 0 || na != 10 || nb != 10 {
+			L.Violation("rr-share-wrong-on-a-real-listener/grpc", d)
 		}
 	}
 	L.End(true)
